@@ -53,6 +53,11 @@ def cases(draw, prof):
         if m == "zero":
             for pop in pops:
                 truth[pop][c["name"]] = 0.0
+    if draw(st.integers(0, 2)) == 0:
+        # the Compartments sheet has a "Setup Weight" column: filled in (1) for one databook compartment, blank for the others
+        dbc = [c for c in body if c["db"]]
+        if dbc:
+            draw(st.sampled_from(dbc))["sw"] = 1
     # characteristics in the databook
     in_db = []
     for x in characs:
